@@ -108,9 +108,17 @@ def check_property(pid, tier, seed):
         print(f'[{pid}] verus unit {un} ...', flush=True)
         unit_results.append(verify_unit(un, tier, seed))
     kani_results = []
+    groups = {}
     for h in spec.get('kani', []):
-        print(f'[{pid}] kani harness {h["harness"]} ({h.get("profile", "debug")}) ...', flush=True)
-        kani_results.append(kani_mod.run_harness(h, tier))
+        groups.setdefault((h['crate'], h.get('profile', 'debug')), []).append(h)
+    for (crate, prof), hs in groups.items():
+        print(f'[{pid}] kani {crate} [{prof}]: {", ".join(h["harness"] for h in hs)} ...', flush=True)
+        rs = kani_mod.run_group(crate, prof, hs)
+        for h in hs:
+            r = rs[h['harness']]
+            if r['failures']:
+                r = kani_mod.run_harness(h, tier)      # re-run alone with concrete playback
+            kani_results.append(r)
 
     undecided = [f'{r["unit"]}: {r["reason"]}' for r in unit_results if r['status'] != 'ok']
     undecided += [f'kani {r["harness"]}: {r["reason"]}' for r in kani_results if r['status'] == 'undecided']
